@@ -202,6 +202,16 @@ def utf8_texts(rng, thorough, tlc_texts):
     for s in seqs:
         texts.append(s)
         texts.append(b"A" + s + b"B")
+    # byte-order-mark family: every sequence (well-formed or not) behind a UTF-8 BOM, and behind the other encodings'
+    # marks (which are themselves ill-formed UTF-8): a text is judged as a whole, whatever it starts with
+    bom8 = bytes.fromhex("efbbbf")
+    for s in seqs:
+        texts.append(bom8 + s)
+        if thorough or rng.random() < 0.5:
+            texts.append(bom8 + b"ok" + s + b"!")
+    for mark in ("fffe", "feff", "0000feff", "fffe0000"):
+        texts.append(bytes.fromhex(mark) + b"A")
+        texts.append(bytes.fromhex(mark) + rng.choice(seqs))
     # insertion family: one foreign byte (ASCII, continuation, lead) inserted at every inner position of a well-formed
     # multi-byte sequence; with every 2-chunking below, the foreign byte also arrives as the first byte of a chunk
     for s in seqs[3:24]:
@@ -315,6 +325,42 @@ def run(ctx):
     for label, val in paths:
         pipeline.drive_and_validate(ctx, exe, execs, SPEC_DIR, "CodecTrace", "Trace.cfg", label=label, nbatch=16,
                                     env={"AWS_COMMON_AVX2": val}, tlc_env=tlc_env, on_fired=on_fired)
+    # 4. several threads at once, each on buffers of its own (a stateless API): controlled schedules validated by
+    # CodecVsTrace.tla on both paths, and a data-race scan on the ThreadSanitizer build (hidden shared state is a race)
+    import base64 as _b64
+    exe_vs = build.build_harness("codec_scenario", ["codec_scenario.c"], cflags=["-Wno-unused-function"], wrap=True)
+    blocks = []
+    for _ in range(100 if not thorough else 2500):
+        sc = []
+        for k in range(1, rng.randint(2, 3) + 1):
+            ops = []
+            for _o in range(rng.randint(3, 10)):
+                n = rng.choice([0, 1, 2, 3, 5, 11, 21, 22, 23, 24, 25, 31, 32, 33, 47, 48, 49, 71, 72, 96, 100])
+                raw = bytes(rng.randrange(256) for _ in range(n))
+                kind = rng.choice(["be", "bd", "bd", "he", "hd"])
+                if kind == "be":
+                    inp, need = raw, 4 * ((n + 2) // 3) + 1
+                elif kind == "bd":
+                    inp, need = _b64.b64encode(raw), n
+                    if inp and rng.random() < 0.15:                     # malformed: must be refused in every thread
+                        i = rng.randrange(len(inp))
+                        inp = inp[:i] + rng.choice([b"=", b"*", b"\x00"]) + inp[i + 1:]
+                elif kind == "he":
+                    inp, need = raw, 2 * n + 1
+                else:
+                    inp, need = raw.hex().encode(), n
+                cap = max(0, need + rng.choice([0, 0, 0, 1, 7, -1]))
+                pre = rng.choice([0, 0, 1, 5]) if kind in ("be", "he") else 0
+                ops.append("%s:%s:%d:%d" % (kind, inp.hex(), cap + pre, pre))
+            sc.append("THREAD %d %s" % (k, " ".join(ops)))
+        blocks.append((rng.choice(["rand %d", "pct %d 2 60", "pct %d 3 100"]) % rng.randrange(1, 10 ** 6), sc))
+    nvs = 0
+    for label, val in paths:
+        n1, _acc = pipeline.drive_vsched(ctx, exe_vs, blocks if val == "1" or not hw else blocks[::3], SPEC_DIR, "CodecVsTrace",
+                                         "VsTrace.cfg", label="vs_" + label, env={"AWS_COMMON_AVX2": val})
+        nvs += n1
+    pipeline.race_scan(ctx, "codec_scenario", "codec_scenario.c", blocks[: (80 if not thorough else 1500)])
+    ctx.extra["threaded_executions"] = nvs
     # evaluations / per-kind counts / event-by-event comparison of the two traces (diagnostic, not a verdict)
     kinds, total = {}, 0
     traces = {}
